@@ -826,8 +826,13 @@ func (n *IncludeNode) Render(w io.Writer, ctx *RenderContext) error {
 	}
 
 	// Need a new context for 'only' mode, sandboxed mode, or with variables
-	includeCtx := ctx
-	if n.only || n.sandboxed {
+	var includeCtx *RenderContext
+	if !n.only && !n.sandboxed {
+		// Variables are added to a child context so that they stay local to the include
+		includeCtx = ctx.Clone()
+		includeCtx.lastLoadedTemplate = template
+		defer includeCtx.Release()
+	} else {
 		var contextVars map[string]interface{}
 
 		if n.only {
